@@ -7,7 +7,7 @@ C12 line protocol.  One line = one whole case.
   rx <recvsize> <maxsize> <retry:0|1> <script> <op> ...
        script : `-` | events joined by `,` : `t` (socket.timeout) | <hex> (a chunk)
        op     : r<n> recv(n) | p<n> peek(n) | s<n> recv_size(n)
-              | u<w:0|1>:<max>:<hexdelim|-> recv_until | c<max> recv_close
+              | u<w:0|1>:<max>:<hexdelim|-> recv_until | c<max> recv_close | m<n> setmaxsize(n)
        max    : U (argument omitted -> constructor maxsize) | N (None -> _RECV_LARGE_MAXSIZE) | <n>
        retry=1: an op that raised Timeout is called again, at most (#t events + 1) attempts in total
      output: one record per attempt, `;`-joined:  <res>/<rbuf hex>
@@ -90,13 +90,19 @@ def handleRx (toks : List String) : String :=
     | some rs, some ms, some script =>
       let cfg : Cfg := ⟨rs, ms⟩
       let tries := if retry = "1" then nTimeouts script + 1 else 1
-      let rec go (st : St) (ops : List String) (acc : List String) : Option (List String) :=
+      let rec go (cfg : Cfg) (st : St) (ops : List String) (acc : List String) : Option (List String) :=
         match ops with
         | [] => some acc.reverse
-        | t :: ts => match parseOp? cfg t with
-          | some op => let (st', acc') := runOp cfg op tries st acc; go st' ts acc'
+        | t :: ts =>
+          if t.front = 'm' then
+            -- setmaxsize(n): later calls that omit maxsize use n
+            match (t.drop 1).toString.toNat? with
+            | some n => go { cfg with maxsize := n } st ts (s!"none/{natsToHex st.rbuf}" :: acc)
+            | none => none
+          else match parseOp? cfg t with
+          | some op => let (st', acc') := runOp cfg op tries st acc; go cfg st' ts acc'
           | none => none
-      match go ⟨[], script⟩ ops [] with
+      match go cfg ⟨[], script⟩ ops [] with
       | some outs => if outs.isEmpty then "-" else ";".intercalate outs
       | none => "bad-op"
     | _, _, _ => "bad-op"
